@@ -405,7 +405,9 @@ def DEGREES(number):
 def PRODUCT(*args):
     # all items first, as in SUM
     result = None
-    for number in list(utils.inumbers(args)):
+    # (a zero among the items first: the product is 0 in every order, also where the product of the
+    # items in front of the zero is beyond the bound)
+    for number in sorted(utils.inumbers(args), key=lambda number: number != 0):
         result = number if result is None else result * number
         if isinstance(result, int) and result.bit_length() > utils.MAX_WHOLE_BITS:
             # as under the * operator (see utils.MAX_WHOLE_BITS): a column of nine-digit numbers
